@@ -177,6 +177,8 @@ def _wrap_builtin(name, orig):
         try:
             r = orig(*args, **kw)
         except BaseException as e:
+            if type(e).__name__ in ('RunTimeout', 'RunTooBig'):
+                raise
             if is_mut:
                 rec.mutator_calls += 1
             if rec.builtin_hooks and not isinstance(e, SimKill):
